@@ -6,7 +6,7 @@
                         followed by a line "ST r1 r2 ..." listing the results whose cached value is stale.
                         With "old" the table uses MobilityLinearSpring's pre-fix entry (regression witness).
       M idx        select system idx            H id   new history (fresh State through Model)
-      v V X        SetVar V X                   r G    Realize G          q R   Query R
+      v V X        SetVar V X                   r G    Realize G          q R   Query R        c   Copy
       .            end of group: print status   END *)
 open C16
 
@@ -62,6 +62,7 @@ let run old =
       | "v" :: v :: x :: _ -> s := step !t !s (SetVar (i2n (int_of_string v), i2n (int_of_string x)))
       | "r" :: g :: _ -> s := step !t !s (Realize (i2n (int_of_string g)))
       | "q" :: r :: _ -> s := step !t !s (Query (i2n (int_of_string r)))
+      | "c" :: _ -> s := step !t !s Copy
       | "." :: _ -> status ()
       | "END" :: _ -> Buffer.add_string out "END\n"
       | _ -> ()
